@@ -36,7 +36,9 @@ def edit_sites(mm, n, t, path, out, rng):
                 e = mm.E[pt["name"]]
                 declared = [v["value"] for v in e["values"]]
                 is_str = e["type"]["name"] == "string"
-                cands = ["__not_a_member__", ""] if is_str else [987654, max(declared) + 1, 0, -1]
+                # (integer enumerations: also non-integral numbers between / next to the members - a hook that
+                # coerces with int() would "repair" them to a member)
+                cands = ["__not_a_member__", ""] if is_str else [987654, max(declared) + 1, 0, -1, min(declared) + 0.5, max(declared) + 0.25, min(declared) - 0.001]
                 if is_str:
                     d0 = rng.choice(declared)
                     cands += [d0.upper(), d0.title(), d0.swapcase(), d0 + " "]  # look-alikes of a member
@@ -52,6 +54,10 @@ def edit_sites(mm, n, t, path, out, rng):
             elif pt["kind"] == "stringLiteral":
                 out.append((path + [pn], "wrong-literal", pt["value"] + "x"))
                 out.append((path + [pn], "wrong-literal", ""))
+                lv = pt["value"]
+                for look in (lv.upper(), lv.title(), lv + " ", " " + lv, lv + "\n"):  # look-alikes of the literal
+                    if look != lv:
+                        out.append((path + [pn], "wrong-literal", look))
             edit_sites(mm, c, pt, path + [pn], out, rng)
         return
     if k == "arr" and t["kind"] == "array":
@@ -121,12 +127,24 @@ def shard(i, n, args):
                     if key in tree[2]:
                         pt = next(p["type"] for p in root.t["value"]["properties"] if p["name"] == key)
                         edit_sites(mm, tree[2][key], pt, [key], sites, r)
-            big = ("long130" in lab) or lab in ("wide", "deep40")
+            big = ("long130" in lab) or lab in ("wide", "deep40", "deep120")
             cap = 6 if big else 80
             if len(sites) > cap:
                 # the cost of one judged edit is a full parse of the value: a seeded sample of the sites
-                # (large values - 130-element arrays, 40-level recursion - get a handful each)
-                sites = [sites[x] for x in sorted(r.sample(range(len(sites)), cap))]
+                # (large values - 260-element arrays, deep recursion - get a handful each; for those the
+                # SHALLOWEST sites come first: the fields that sit next to the big array / recursion)
+                keep = set(r.sample(range(len(sites)), cap))
+                if big:
+                    order = sorted(range(len(sites)), key=lambda x: (len(sites[x][0]), x))
+                    seen_paths = set()
+                    for x in order:
+                        pk = (tuple(map(str, sites[x][0])), sites[x][1])
+                        if pk not in seen_paths:
+                            seen_paths.add(pk)
+                            keep.add(x)
+                        if len(seen_paths) >= 6:
+                            break
+                sites = [sites[x] for x in sorted(keep)]
             for path, kind, v in sites:
                 res["edits"] += 1
                 jp = apply_edit(j, path, kind, v)
